@@ -117,10 +117,14 @@ func (m *loopMon) now() int64 { return int64(time.Since(m.t0)) }
 type monAgg struct {
 	inner *aggregation.MatchCounter
 	m     *loopMon
+	slow  time.Duration // a slow aggregator: every sample takes this long (inside the loop's critical section, where Sample runs)
 }
 
 func (a *monAgg) Sample(s string) {
 	t := a.m.now()
+	if a.slow > 0 {
+		time.Sleep(a.slow)
+	}
 	a.inner.Sample(s)
 	a.m.samples = append(a.m.samples, span{t, a.m.now()})
 }
@@ -135,6 +139,7 @@ type loopObs struct {
 	readErrs  int
 	lingered  bool
 	statusLen int
+	slowAgg   bool
 }
 
 func runLoop(w *pipe.Workload, dir string, stretchMs int, linger bool, limit time.Duration) *loopObs {
@@ -163,6 +168,18 @@ func runLoop(w *pipe.Workload, dir string, stretchMs int, linger bool, limit tim
 	per := time.Duration(stretchMs) * time.Millisecond * time.Duration(readers) / time.Duration(nb)
 	if per > 40*time.Millisecond {
 		per = 40 * time.Millisecond
+	}
+	// one run in four: the aggregator is the slow stage instead (readers and workers run freely, the match queue is
+	// never empty, input ends while the loop is still sampling); the run is stretched by the samples themselves
+	var slowSample time.Duration
+	if run.NewRand(w.Seed, "slowagg").Intn(4) == 0 {
+		matches := totalLines/2 + 1
+		slowSample = time.Duration(stretchMs) * time.Millisecond / time.Duration(matches)
+		if slowSample > 2*time.Millisecond {
+			slowSample = 2 * time.Millisecond
+		}
+		per = 0
+		o.slowAgg = true
 	}
 	var ctr atomic.Int64
 	if per > 20*time.Microsecond {
@@ -265,7 +282,7 @@ func runLoop(w *pipe.Workload, dir string, stretchMs int, linger bool, limit tim
 				afterBatchDelay()
 			}
 		})
-		helpers.RunAggregationLoop(ext, &monAgg{inner: counter, m: mon}, func() {
+		helpers.RunAggregationLoop(ext, &monAgg{inner: counter, m: mon, slow: slowSample}, func() {
 			t := mon.now()
 			// what the real histogram command does in its render callback
 			items := counter.ItemsSortedBy(5, sorter)
@@ -527,6 +544,9 @@ func loopCase(c *run.Ctx, cs Case) bool {
 		c.Violation("read-errors:"+w.Cfg.String(), fmt.Sprintf("%d read errors on readable inputs", o.readErrs), cs)
 	}
 	c.Count("loop_runs", 1)
+	if o.slowAgg {
+		c.Count("loop_runs_with_a_slow_aggregator", 1)
+	}
 	c.Count("sample_events", int64(len(o.mon.samples)))
 	c.Count("render_events", int64(len(o.mon.renders)))
 	c.Count("between_batch_points_checked", int64(o.mon.batchPoints))
